@@ -15,7 +15,10 @@ SPEC = dict(
          "feature gives the same hash, each single alteration changes the hash, the wire rule == the XML really written; client part: "
          "real QXmppClient with discovery manager, random bundled managers and generated extensions/identities/info forms: <c ver> of "
          "the emitted presence == XEP hash recomputed from the XML of the real disco#info reply for node#ver ('caps' lines tie the "
-         "capabilities()/addProperCapability()/handleIq() model). A sequence (one base set with its variants) is non-trivial when it "
+         "capabilities()/addProperCapability()/handleIq() model); then per client a history of 2-5 reconfigurations (setClientName/Type/Category/"
+         "CapabilitiesNode/InfoForm, addExtension, removeExtension) each followed by a re-publication (fresh presence or one derived from "
+         "clientPresence(); via setClientPresence or via connectToServer + session start on a loopback socket) and the same comparison after "
+         "EVERY emitted presence ('config'/'publish'/'query' lines tie the stateful clientStep model). A sequence (one base set with its variants) is non-trivial when it "
          "yields >= 2 distinct hashes.",
     trusted_base=[
         "Lean 4.33.0 kernel; axioms per theorem listed under coverage.theorems (subset of propext, Classical.choice, Quot.sound)",
@@ -36,13 +39,14 @@ SPEC = dict(
         "field 'var's are unique (XEP-0004 3.2); with a repeated var the QMap keeps the last field (field_order_matters_when_keys_repeat)",
         "strings are well-formed Unicode (no lone surrogates in a QString)",
         "advertised == answered is about one fixed configuration: reconfiguring the manager after the presence was sent leaves the advertised "
-        "hash stale until the next presence (counted as stale_ver_answered_with_new_info_after_reconfiguration, outside the property's quantifier)",
+        "hash stale until the next presence is published (counted as stale_ver_answered_with_new_info_before_republication; nothing is claimed "
+        "between publications, every newly emitted presence is checked)",
     ],
     level_text="Theorems for ALL info sets: ver_perm_invariant (identities, features, fields, values in any order), ver_feature_set_invariant / "
                "ver_dup_feature_invariant, ver_string_injective_tokens / _on_canonical and the ver_changes_when_* corollaries under named "
                "SHA-1 collision freedom, code_eq_spec (C++ string = XEP-0115 5.1 string for every info set with a form in the XEP's domain and "
                "plain values, any characters; i;octet on UTF-8 proved to be code point order), advertised_eq_answered / "
-               "advertised_eq_xep_hash_of_answer, reply_features_nodup; defects with witnesses: C20_defect_boolean_field, "
+               "advertised_eq_xep_hash_of_answer, every_published_ver_is_answered (any history of reconfigure/publish/query), reply_features_nodup; defects with witnesses: C20_defect_boolean_field, "
                "C20_defect_valueless_field. Model tied to the real library by exhaustive-permutation + random correspondence and an "
                "independent XEP implementation.",
     level_note="Proved about the hand-written model; model-to-code tie is differential (all permutations of small sets, sampled beyond). SHA-1 "
